@@ -11,7 +11,7 @@ echo "|---|---|---|---|" >> $OUT
 fail=0
 for d in seeded/C*/; do
   id=$(basename $d); prop=${id%%-*}
-  git -C /repo apply $d/patch.diff || { echo "$id: patch does not apply"; fail=1; continue; }
+  git -C /repo apply "$PWD/$d/patch.diff" || { echo "$id: patch does not apply"; fail=1; continue; }
   for c in $prop "$@"; do
     out=$(timeout 1500 ./check $c quick 2>&1); rc=$?
     cls=$(echo "$out" | grep -E '^violation' | head -1 | sed 's/.*class=\([^ ]*\).*/\1/')
